@@ -70,6 +70,9 @@ TEMPLATES = [
     "def f(x: Union[{A}, {B}, None], y: object) -> None:\n    if isinstance(x, ({A}, {B}, bytes, float)):\n        reveal_type(x)\n    if isinstance(y, ({A}, {B}, bool)) and y in ({LA}, {LB}, {LC}):\n        reveal_type(y)\n    if type(y) in {{int, str, bytes}}:\n        reveal_type(y)\n",
     "class Q1:\n    qa: int = 1\nclass Q2(Q1):\n    qb: str = ''\nclass Q3(Q2, Generic[T]):\n    def m(self, t: T) -> None:\n        print(self.qa, self.qb, self.qc, self.qd)\n        self.qe = t\ndef f(q: Q3[{A}], r: float, i: int) -> None:\n    q.m({LB})\n    reveal_type(q.qe)\n    r = i\n    i = r\n    cpx: complex = i\n    use(i)\n    use(r)\ndef use(p: P3) -> None: ...\n",
     "def takes(**kwargs: str) -> None: ...\ndef takes2(a: int = 0, **kwargs: {B}) -> None: ...\ndef f(key: Literal['alpha', 'beta', 'gamma', 'delta'], k2: Literal['a', 'bb', {LB}]) -> None:\n    takes(**{{key: 1}})\n    takes2(**{{key: {LA}, k2: None}})\n    takes2(**{{k2: 1.5}}, **{{key: b''}})\n",
+    # a fourth pair for the history search: calls of builtins whose typeshed signatures mention protocols, then the text of those signatures
+    "def f(x: object) -> None:\n    print(int(3.5), len('a'), abs(-1), iter([{LA}]), sorted([{LA}]), hash({LB}))\n",
+    "def f() -> None:\n    reveal_type(int)\n    reveal_type(len)\n    reveal_type(abs)\n    reveal_type(iter)\n    reveal_type(hash)\n",
     # sets of tuples that are only partially ordered among themselves (None vs int in the same position)
     "def f(x: object, y: object) -> None:\n    if x in {{('alpha', 1), ('alpha', None), ('beta', {LA}), ('beta', 'z'), ('gamma',)}}:\n        reveal_type(x)\n    for e in {{('k', None), ('k', 0), ('j', b'')}}:\n        reveal_type(e)\n",
     # a third pair for the history search: a union whose first member matches a generic protocol only structurally, then the plain member alone
@@ -118,7 +121,7 @@ def corpus(tier):
 def bounds(tier):
     _install()
     return {"corpus": len(corpus(tier)), "schedule_deviations": "1 site" if tier == "quick" else "1 site (all programs), 1 occurrence (cap 8; first and swapped variants), 2 sites (first variant)", "history_depth": 2 if tier == "quick" else 3,
-            "history_alphabet": 18 if tier == "quick" else 22, "seeds": 8 if tier == "quick" else 32,
+            "history_alphabet": 20 if tier == "quick" else 24, "seeds": 8 if tier == "quick" else 32,
             "harvested_programs": len(__import__("props.c10_harvest", fromlist=["x"]).hcorpus()), "harvested_schedules": "1 site (rev)" if tier == "quick" else "1 site (rev, rot1, swap01)",
             "harvested_seeds": 6 if tier == "quick" else 24, "harvested_histories": "corpus in order, in reverse order" + ("" if tier == "quick" else ", and in order starting at every 12th program (wrapping around)")}
 
@@ -127,7 +130,7 @@ def units(tier):
     n = len(corpus(tier))
     # quick: schedules for the first and the swapped variant of every template (the second variant only changes the type vocabulary); thorough: all three
     u = [("sched", tier, i) for i in range(n) if tier == "thorough" or i >= NV * len(TEMPLATES) or i % NV == 0]
-    k = 18 if tier == "quick" else 22
+    k = 20 if tier == "quick" else 24
     u += [("hist", tier, i) for i in range(k)]
     u += [("seeds", tier, 0), ("typing", tier, 0)]
     # second corpus: the programs of pyanalyze's own test-suite (props/c10_harvest.py)
@@ -272,7 +275,7 @@ def _in_child(fn):
 
 
 # history alphabet as (template, variant): colliding pairs first (same template in two variants; the swapped variant spells the same unions in the other order)
-HIST_ALPHA = [pidx(-9, 0), pidx(-8, 0), pidx(-7, 0), pidx(-6, 0), pidx(-5, 0), pidx(-4, 0), pidx(-1, 0), pidx(-1, "s"), pidx(8, 0), pidx(8, 1), pidx(0, 0), pidx(0, "s"), pidx(16, 0), pidx(16, 1), pidx(5, 0), pidx(5, "s"), pidx(-3, 0), pidx(-3, "s"),
+HIST_ALPHA = [pidx(-12, 0), pidx(-11, 0), pidx(-9, 0), pidx(-8, 0), pidx(-7, 0), pidx(-6, 0), pidx(-5, 0), pidx(-4, 0), pidx(-1, 0), pidx(-1, "s"), pidx(8, 0), pidx(8, 1), pidx(0, 0), pidx(0, "s"), pidx(16, 0), pidx(16, 1), pidx(5, 0), pidx(5, "s"), pidx(-3, 0), pidx(-3, "s"),
               pidx(4, 0), pidx(4, 1), pidx(12, 0), pidx(12, 1)]
 
 
@@ -280,7 +283,7 @@ def _hist(res, tier, first, only=None):
     _install()
     import pa.run      # import pyanalyze in the parent; no check is run here
     progs = corpus(tier)
-    k = 18 if tier == "quick" else 22
+    k = 20 if tier == "quick" else 24
     alpha = [a for a in HIST_ALPHA[:k] if a < len(progs)]
     depth = 2 if tier == "quick" else 3
 
@@ -321,7 +324,6 @@ def _hist(res, tier, first, only=None):
                               {"mode": "hist", "seq": list(seq), "prog": p, "order": 10 ** 8 + first * 10000 + si},
                               "in a process that first checked programs %s (one shared Checker) and then the alphabet up to it, program %d renders differently than in a fresh process:\n%s\n%s"
                               % (list(seq), p, progs[p][len(PRE):], _diff(fresh[p], got)))
-                break
     res.sample({"history": list(seqs[-1]), "alphabet": alpha})
 
 
